@@ -117,9 +117,16 @@ def discharge(pc, cond, timeout_ms, want_model=True, both=False, prefs=None):
         r2 = _cvc5(s.to_smt2(), timeout_ms / 1000.0)
         if r2 == "unsat":
             return dict(verdict="proved", backend="cvc5", model=None, time=time.time() - t0)
-        if r2 == "sat":
-            return dict(verdict="failed", backend="cvc5", model=None, time=time.time() - t0, note="cvc5 sat, no model extracted")
-        return dict(verdict="unknown", backend="z3+cvc5", model=None, time=time.time() - t0, note=s.reason_unknown())
+        # cvc5 could not prove it either (or claims sat, without a model we could replay): z3 once more with four
+        # times the budget -- a busy machine must not turn a provable obligation into an alarm
+        why = s.reason_unknown()
+        s.set("timeout", int(timeout_ms) * 4)
+        r = s.check()
+        if r == z3.unsat:
+            return dict(verdict="proved", backend="z3", model=None, time=time.time() - t0)
+        if r == z3.sat:
+            return dict(verdict="failed", backend="z3", model=_nice_model(s, prefs) if want_model else None, time=time.time() - t0)
+        return dict(verdict="unknown", backend="z3+cvc5", model=None, time=time.time() - t0, note="%s; cvc5: %s" % (why, r2))
     if r == z3.unsat:
         if both:
             r2 = _cvc5(s.to_smt2(), timeout_ms / 1000.0)
@@ -418,7 +425,7 @@ def _native_probe(unit, unit_name, case, prop, decls, res, opts, tier):
     tried = 0
     import signal
 
-    class _ProbeTimeout(BaseException):
+    class _ProbeTimeout(EngineSignal):  # (an EngineSignal: run_native passes it through instead of recording it as an outcome)
         pass
 
     def _alarm(signum, frame):
@@ -433,11 +440,11 @@ def _native_probe(unit, unit_name, case, prop, decls, res, opts, tier):
         signal.setitimer(signal.ITIMER_REAL, 1.5)
         try:
             nout, nclauses, _ = run_native(unit, case, inp)
-        except EngineSignal:
-            return
         except (_ProbeTimeout, MemoryError):
             timeouts += 1  # e.g. a transfer of gigabytes: this input is not evaluable here
             continue
+        except EngineSignal:
+            return
         except BaseException as ex:  # contract code failing natively on odd inputs: not evidence of anything
             res["notes"].append("native probe: contract code raised %r" % (ex,))
             return
